@@ -21,14 +21,39 @@ def facts_of(I, norm=lambda t: t):
     return [or_(not_(norm(p)), norm(q)) for p, q in I.facts]
 
 
+_TRY_RANGES = {}
+
+
+def try_ranges(events):
+    """{exception flag: (seq of try entry, seq at which the try body ends)}"""
+    key = id(events)
+    hit = _TRY_RANGES.get(key)
+    if hit is not None and hit[0] is events and hit[1] == len(events):
+        return hit[2]
+    enter, end = {}, {}
+    for e in events:
+        if e.kind == "try_enter":
+            enter.setdefault(e.data[0], e.seq)
+        elif e.kind in ("try_body_end", "handler") and e.data[0] in enter:
+            end.setdefault(e.data[0], e.seq)
+    rng = {x: (enter[x], end.get(x, len(events))) for x in enter}
+    _TRY_RANGES[key] = (events, len(events), rng)
+    return rng
+
+
 def tries_covering(events, ev):
-    """exception flags of the try statements whose body contains event ev (their negation guards ev)"""
+    """exception flags of the try statements whose BODY contains event ev: their negation guards ev and ev lies between
+    the try's entry and the end of its body (code after a try whose handler leaves is guarded by the same negation but is
+    not protected by it)"""
     out = []
     g = ev.guard
     conj = g.args if isinstance(g, Op) and g.op == "and" else [g]
+    rng = try_ranges(events)
     for c in conj:
         if isinstance(c, Op) and c.op == "not" and isinstance(c.args[0], Sym) and c.args[0].kind == "exc":
-            out.append(c.args[0])
+            r = rng.get(c.args[0])
+            if r is None or r[0] < ev.seq < r[1]:
+                out.append(c.args[0])
     return out
 
 
